@@ -31,6 +31,8 @@ def mentionsStat (x : Name) : Stat → Bool
   | .do_ body => mentionsBlock x body
   | .if_ c t e => mentionsExpr x c || mentionsBlock x t || mentionsBlock x e
   | .callS f args => f == x || mentionsExprs x args
+  | .loclAttr n val => n == x || mentionsExpr x val
+  | .method obj _ colon ps body => obj == x || ps.contains x || (colon && selfName == x) || mentionsBlock x body
 def mentionsBlock (x : Name) : List Stat → Bool
   | [] => false
   | st :: rest => mentionsStat x st || mentionsBlock x rest
@@ -173,10 +175,27 @@ theorem sizeStat_pos : ∀ (st : Stat) (env : Env) (s : RefSt), (refStat env s s
     simp only [refStat, sizeStat, sizeBlock_pos t, sizeBlock_pos e, sizeExpr_pos c, RefSt.skip_pos]; omega
   | .callS f args, env, s => by
     simp only [refStat, sizeStat, RefSt.skip_pos, sizeExprs_pos args, RefSt.use_pos]; omega
+  | .loclAttr n val, env, s => by simp only [refStat, sizeStat, sizeExpr_pos val, RefSt.skip_pos]; omega
+  | .method obj k colon ps body, env, s => by
+    simp only [refStat, sizeStat, sizeBlock_pos body, RefSt.skip_pos, RefSt.use_pos]; omega
 theorem sizeBlock_pos : ∀ (b : List Stat) (env : Env) (s : RefSt), (refBlock env s b).1.pos = s.pos + 2 * sizeBlock b
   | [], env, s => by simp [refBlock, sizeBlock]
   | st :: rest, env, s => by simp only [refBlock, sizeBlock, sizeBlock_pos rest, sizeStat_pos st]; omega
 end
+
+theorem selfEnv_ren (d : Nat) (new : Name) (colon : Bool) (p : Nat) (env : Env) (h : (colon && decide (p = d)) = false) :
+    selfEnv colon p (renEnv d new env) = renEnv d new (selfEnv colon p env) := by
+  cases colon
+  · rfl
+  · simp only [Bool.true_and, decide_eq_false_iff_not] at h
+    simp [selfEnv, renEnv, h]
+
+theorem EnvFresh.selfEnv {new : Name} {env : Env} (h : EnvFresh new env) (colon : Bool) (p : Nat)
+    (hn : (colon && selfName == new) = false) : EnvFresh new (selfEnv colon p env) := by
+  cases colon
+  · exact h
+  · simp only [Bool.true_and, beq_eq_false_iff_ne] at hn
+    exact h.cons selfName p hn
 
 /-! ### The α-renamed program resolves like the program -/
 
@@ -185,141 +204,176 @@ variable (d : Nat) (new : Name)
 
 mutual
 theorem alphaExpr_ok : ∀ (e : Expr) (env : Env) (s : RefSt) (pos : Nat), pos = s.pos → EnvFresh new env →
-    mentionsExpr new e = false → refExpr (renEnv d new env) s (alphaExpr d new env pos e) = refExpr env s e
-  | .name n, env, s, pos, hp, hf, hm => by
+    mentionsExpr new e = false → selfDeclAtExpr d pos e = false → refExpr (renEnv d new env) s (alphaExpr d new env pos e) = refExpr env s e
+  | .name n, env, s, pos, hp, hf, hm, hs => by
     simp only [mentionsExpr, beq_eq_false_iff_ne] at hm
     simp only [alphaExpr, refExpr, use_ren hf hm]
-  | .lit, env, s, pos, hp, hf, hm => by simp only [alphaExpr, refExpr]
-  | .call f args, env, s, pos, hp, hf, hm => by
+  | .lit, env, s, pos, hp, hf, hm, hs => by simp only [alphaExpr, refExpr]
+  | .call f args, env, s, pos, hp, hf, hm, hs => by
     simp only [mentionsExpr, Bool.or_eq_false_iff, beq_eq_false_iff_ne] at hm
+    simp only [selfDeclAtExpr] at hs
     simp only [alphaExpr, refExpr, use_ren hf hm.1]
-    rw [alphaExprs_ok args env _ (pos + 4) (by simp [hp]) hf hm.2]
-  | .func ps body, env, s, pos, hp, hf, hm => by
+    rw [alphaExprs_ok args env _ (pos + 4) (by simp [hp]) hf hm.2 hs]
+  | .func ps body, env, s, pos, hp, hf, hm, hs => by
     simp only [mentionsExpr, Bool.or_eq_false_iff] at hm
+    simp only [selfDeclAtExpr] at hs
     subst hp
     simp only [alphaExpr, refExpr, alphaBinders_length, ← bind_ren]
     have := alphaBlock_ok body (bindNames env (s.pos + 4) ps) (s.skip (3 + ps.length)) (s.pos + 2 * (3 + ps.length)) rfl
-      (EnvFresh.bindNames ps _ _ hf hm.1) hm.2
+      (EnvFresh.bindNames ps _ _ hf hm.1) hm.2 hs
     rw [this.1]
 theorem alphaExprs_ok : ∀ (es : List Expr) (env : Env) (s : RefSt) (pos : Nat), pos = s.pos → EnvFresh new env →
-    mentionsExprs new es = false → refExprs (renEnv d new env) s (alphaExprs d new env pos es) = refExprs env s es
-  | [], env, s, pos, hp, hf, hm => by simp only [alphaExprs, refExprs]
-  | e :: es, env, s, pos, hp, hf, hm => by
+    mentionsExprs new es = false → selfDeclAtExprs d pos es = false → refExprs (renEnv d new env) s (alphaExprs d new env pos es) = refExprs env s es
+  | [], env, s, pos, hp, hf, hm, hs => by simp only [alphaExprs, refExprs]
+  | e :: es, env, s, pos, hp, hf, hm, hs => by
     simp only [mentionsExprs, Bool.or_eq_false_iff] at hm
+    simp only [selfDeclAtExprs, Bool.or_eq_false_iff] at hs
     simp only [alphaExprs, refExprs]
-    rw [alphaExpr_ok e env s pos hp hf hm.1]
-    exact alphaExprs_ok es env _ _ (by rw [sizeExpr_pos, hp]) hf hm.2
+    rw [alphaExpr_ok e env s pos hp hf hm.1 hs.1]
+    exact alphaExprs_ok es env _ _ (by rw [sizeExpr_pos, hp]) hf hm.2 hs.2
 theorem alphaStat_ok : ∀ (st : Stat) (env : Env) (s : RefSt) (pos : Nat), pos = s.pos → EnvFresh new env →
-    mentionsStat new st = false →
+    mentionsStat new st = false → selfDeclAtStat d pos st = false →
     (refStat (renEnv d new env) s (alphaStat d new env pos st).1).1 = (refStat env s st).1 ∧
     (refStat (renEnv d new env) s (alphaStat d new env pos st).1).2 = renEnv d new (refStat env s st).2 ∧
     (alphaStat d new env pos st).2 = (refStat env s st).2 ∧ EnvFresh new (refStat env s st).2
-  | .locl names vals, env, s, pos, hp, hf, hm => by
+  | .locl names vals, env, s, pos, hp, hf, hm, hs => by
     simp only [mentionsStat, Bool.or_eq_false_iff] at hm
+    simp only [selfDeclAtStat] at hs
     subst hp
     simp only [alphaStat, refStat, alphaBinders_length, ← bind_ren]
-    have hv := alphaExprs_ok vals env (s.skip (1 + names.length + eqTokens vals)) _ rfl hf hm.2
+    have hv := alphaExprs_ok vals env (s.skip (1 + names.length + eqTokens vals)) _ rfl hf hm.2 hs
     have heq : eqTokens (alphaExprs d new env (s.pos + 2 * (1 + names.length + eqTokens vals)) vals) = eqTokens vals := by
       cases vals <;> simp [eqTokens, alphaExprs]
     rw [heq]
     exact ⟨hv, by first | trivial | rfl, by first | trivial | rfl, EnvFresh.bindNames names _ _ hf hm.1⟩
-  | .assign vars vals, env, s, pos, hp, hf, hm => by
+  | .assign vars vals, env, s, pos, hp, hf, hm, hs => by
     simp only [mentionsStat, Bool.or_eq_false_iff] at hm
+    simp only [selfDeclAtStat] at hs
     subst hp
     simp only [alphaStat, refStat, uses_ren hf vars hm.1]
     have hv := alphaExprs_ok vals env ((s.uses env vars).skip 1) (s.pos + 2 * (vars.length + 1))
-      (by simp [uses_pos]; omega) hf hm.2
+      (by simp [uses_pos]; omega) hf hm.2 hs
     exact ⟨hv, by first | trivial | rfl, by first | trivial | rfl, hf⟩
-  | .localFunc n ps body, env, s, pos, hp, hf, hm => by
+  | .localFunc n ps body, env, s, pos, hp, hf, hm, hs => by
     simp only [mentionsStat, Bool.or_eq_false_iff, beq_eq_false_iff_ne] at hm
+    simp only [selfDeclAtStat] at hs
     subst hp
     have hf1 : EnvFresh new ((n, s.pos + 4) :: env) := hf.cons n _ hm.1.1
     have hb := alphaBlock_ok body (bindNames ((n, s.pos + 4) :: env) (s.pos + 8) ps) (s.skip (5 + ps.length))
-      (s.pos + 2 * (5 + ps.length)) rfl (EnvFresh.bindNames ps _ _ hf1 hm.1.2) hm.2
+      (s.pos + 2 * (5 + ps.length)) rfl (EnvFresh.bindNames ps _ _ hf1 hm.1.2) hm.2 hs
     have hren : renEnv d new ((n, s.pos + 4) :: env) = ((if s.pos + 4 = d then new else n), s.pos + 4) :: renEnv d new env := by
       simp [renEnv]
     simp only [alphaStat, refStat, alphaBinders_length, ← hren, ← bind_ren]
     exact ⟨by rw [hb.1], by first | trivial | rfl, by first | trivial | rfl, hf1⟩
-  | .funcStat n ps body, env, s, pos, hp, hf, hm => by
+  | .funcStat n ps body, env, s, pos, hp, hf, hm, hs => by
     simp only [mentionsStat, Bool.or_eq_false_iff, beq_eq_false_iff_ne] at hm
+    simp only [selfDeclAtStat] at hs
     subst hp
     have hb := alphaBlock_ok body (bindNames env (s.pos + 6) ps) (((s.skip 1).use env n).skip (2 + ps.length))
-      (s.pos + 2 * (4 + ps.length)) (by simp; omega) (EnvFresh.bindNames ps _ _ hf hm.1.2) hm.2
+      (s.pos + 2 * (4 + ps.length)) (by simp; omega) (EnvFresh.bindNames ps _ _ hf hm.1.2) hm.2 hs
     simp only [alphaStat, refStat, alphaBinders_length, ← bind_ren, use_ren hf hm.1.1]
     exact ⟨by rw [hb.1], by first | trivial | rfl, by first | trivial | rfl, hf⟩
-  | .forNum v e1 e2 body, env, s, pos, hp, hf, hm => by
+  | .forNum v e1 e2 body, env, s, pos, hp, hf, hm, hs => by
     simp only [mentionsStat, Bool.or_eq_false_iff, beq_eq_false_iff_ne] at hm
+    simp only [selfDeclAtStat, Bool.or_eq_false_iff] at hs
     subst hp
-    have h1 := alphaExpr_ok e1 env (s.skip 3) (s.pos + 6) (by simp) hf hm.1.1.2
+    have h1 := alphaExpr_ok e1 env (s.skip 3) (s.pos + 6) (by simp) hf hm.1.1.2 hs.1.1
     have h2 := alphaExpr_ok e2 env (refExpr env (s.skip 3) e1) (s.pos + 6 + 2 * sizeExpr e1)
-      (by rw [sizeExpr_pos]; simp) hf hm.1.2
+      (by rw [sizeExpr_pos]; simp) hf hm.1.2 hs.1.2
     have hf1 : EnvFresh new ((v, s.pos + 2) :: env) := hf.cons v _ hm.1.1.1
     have hb := alphaBlock_ok body ((v, s.pos + 2) :: env) ((refExpr env (refExpr env (s.skip 3) e1) e2).skip 1)
-      (s.pos + 8 + 2 * sizeExpr e1 + 2 * sizeExpr e2) (by simp only [RefSt.skip_pos, sizeExpr_pos]; omega) hf1 hm.2
+      (s.pos + 8 + 2 * sizeExpr e1 + 2 * sizeExpr e2) (by simp only [RefSt.skip_pos, sizeExpr_pos]; omega) hf1 hm.2 hs.2
     have hren : renEnv d new ((v, s.pos + 2) :: env) = ((if s.pos + 2 = d then new else v), s.pos + 2) :: renEnv d new env := by
       simp [renEnv]
     simp only [alphaStat, refStat, h1, h2, ← hren]
     exact ⟨by rw [hb.1], by first | trivial | rfl, by first | trivial | rfl, hf⟩
-  | .forIn vs e body, env, s, pos, hp, hf, hm => by
+  | .forIn vs e body, env, s, pos, hp, hf, hm, hs => by
     simp only [mentionsStat, Bool.or_eq_false_iff] at hm
+    simp only [selfDeclAtStat, Bool.or_eq_false_iff] at hs
     subst hp
-    have h1 := alphaExpr_ok e env (s.skip (2 + vs.length)) (s.pos + 2 * (2 + vs.length)) (by simp) hf hm.1.2
+    have h1 := alphaExpr_ok e env (s.skip (2 + vs.length)) (s.pos + 2 * (2 + vs.length)) (by simp) hf hm.1.2 hs.1
     have hb := alphaBlock_ok body (bindNames env (s.pos + 2) vs) ((refExpr env (s.skip (2 + vs.length)) e).skip 1)
       (s.pos + 2 * (3 + vs.length) + 2 * sizeExpr e) (by simp only [RefSt.skip_pos, sizeExpr_pos]; omega)
-      (EnvFresh.bindNames vs _ _ hf hm.1.1) hm.2
+      (EnvFresh.bindNames vs _ _ hf hm.1.1) hm.2 hs.2
     simp only [alphaStat, refStat, alphaBinders_length, h1, ← bind_ren]
     exact ⟨by rw [hb.1], by first | trivial | rfl, by first | trivial | rfl, hf⟩
-  | .while_ c body, env, s, pos, hp, hf, hm => by
+  | .while_ c body, env, s, pos, hp, hf, hm, hs => by
     simp only [mentionsStat, Bool.or_eq_false_iff] at hm
+    simp only [selfDeclAtStat, Bool.or_eq_false_iff] at hs
     subst hp
-    have h1 := alphaExpr_ok c env (s.skip 1) (s.pos + 2) (by simp) hf hm.1
+    have h1 := alphaExpr_ok c env (s.skip 1) (s.pos + 2) (by simp) hf hm.1 hs.1
     have hb := alphaBlock_ok body env ((refExpr env (s.skip 1) c).skip 1) (s.pos + 4 + 2 * sizeExpr c)
-      (by simp only [RefSt.skip_pos, sizeExpr_pos]; omega) hf hm.2
+      (by simp only [RefSt.skip_pos, sizeExpr_pos]; omega) hf hm.2 hs.2
     simp only [alphaStat, refStat, h1]
     exact ⟨by rw [hb.1], by first | trivial | rfl, by first | trivial | rfl, hf⟩
-  | .repeat_ body c, env, s, pos, hp, hf, hm => by
+  | .repeat_ body c, env, s, pos, hp, hf, hm, hs => by
     simp only [mentionsStat, Bool.or_eq_false_iff] at hm
+    simp only [selfDeclAtStat, Bool.or_eq_false_iff] at hs
     subst hp
-    have hb := alphaBlock_ok body env (s.skip 1) (s.pos + 2) (by simp) hf hm.1
+    have hb := alphaBlock_ok body env (s.skip 1) (s.pos + 2) (by simp) hf hm.1 hs.1
     have hc := alphaExpr_ok c (refBlock env (s.skip 1) body).2 ((refBlock env (s.skip 1) body).1.skip 1)
-      (s.pos + 4 + 2 * sizeBlock body) (by simp only [RefSt.skip_pos, sizeBlock_pos]; omega) hb.2.2.2 hm.2
+      (s.pos + 4 + 2 * sizeBlock body) (by simp only [RefSt.skip_pos, sizeBlock_pos]; omega) hb.2.2.2 hm.2 hs.2
     simp only [alphaStat, refStat, hb.1, hb.2.1, hb.2.2.1]
     exact ⟨hc, by first | trivial | rfl, by first | trivial | rfl, hf⟩
-  | .do_ body, env, s, pos, hp, hf, hm => by
+  | .do_ body, env, s, pos, hp, hf, hm, hs => by
     simp only [mentionsStat] at hm
+    simp only [selfDeclAtStat] at hs
     subst hp
-    have hb := alphaBlock_ok body env (s.skip 1) (s.pos + 2) (by simp) hf hm
+    have hb := alphaBlock_ok body env (s.skip 1) (s.pos + 2) (by simp) hf hm hs
     simp only [alphaStat, refStat]
     exact ⟨by rw [hb.1], by first | trivial | rfl, by first | trivial | rfl, hf⟩
-  | .if_ c t e, env, s, pos, hp, hf, hm => by
+  | .if_ c t e, env, s, pos, hp, hf, hm, hs => by
     simp only [mentionsStat, Bool.or_eq_false_iff] at hm
+    simp only [selfDeclAtStat, Bool.or_eq_false_iff] at hs
     subst hp
-    have h1 := alphaExpr_ok c env (s.skip 1) (s.pos + 2) (by simp) hf hm.1.1
+    have h1 := alphaExpr_ok c env (s.skip 1) (s.pos + 2) (by simp) hf hm.1.1 hs.1.1
     have ht := alphaBlock_ok t env ((refExpr env (s.skip 1) c).skip 1) (s.pos + 4 + 2 * sizeExpr c)
-      (by simp only [RefSt.skip_pos, sizeExpr_pos]; omega) hf hm.1.2
+      (by simp only [RefSt.skip_pos, sizeExpr_pos]; omega) hf hm.1.2 hs.1.2
     have he := alphaBlock_ok e env ((refBlock env ((refExpr env (s.skip 1) c).skip 1) t).1.skip 1)
       (s.pos + 6 + 2 * sizeExpr c + 2 * sizeBlock t)
-      (by simp only [RefSt.skip_pos, sizeExpr_pos, sizeBlock_pos]; omega) hf hm.2
+      (by simp only [RefSt.skip_pos, sizeExpr_pos, sizeBlock_pos]; omega) hf hm.2 hs.2
     simp only [alphaStat, refStat, h1, ht.1]
     exact ⟨by rw [he.1], by first | trivial | rfl, by first | trivial | rfl, hf⟩
-  | .callS f args, env, s, pos, hp, hf, hm => by
+  | .callS f args, env, s, pos, hp, hf, hm, hs => by
     simp only [mentionsStat, Bool.or_eq_false_iff, beq_eq_false_iff_ne] at hm
+    simp only [selfDeclAtStat] at hs
     simp only [alphaStat, refStat, use_ren hf hm.1]
-    rw [alphaExprs_ok args env _ (pos + 4) (by simp [hp]) hf hm.2]
+    rw [alphaExprs_ok args env _ (pos + 4) (by simp [hp]) hf hm.2 hs]
     exact ⟨rfl, by first | trivial | rfl, by first | trivial | rfl, hf⟩
+  | .loclAttr n val, env, s, pos, hp, hf, hm, hs => by
+    simp only [mentionsStat, Bool.or_eq_false_iff, beq_eq_false_iff_ne] at hm
+    simp only [selfDeclAtStat] at hs
+    subst hp
+    have hv := alphaExpr_ok val env (s.skip 6) (s.pos + 12) (by simp) hf hm.2 hs
+    have hren : renEnv d new ((n, s.pos + 2) :: env) = ((if s.pos + 2 = d then new else n), s.pos + 2) :: renEnv d new env := by
+      simp [renEnv]
+    simp only [alphaStat, refStat, ← hren]
+    exact ⟨hv, by first | trivial | rfl, by first | trivial | rfl, hf.cons n _ hm.1⟩
+  | .method obj k colon ps body, env, s, pos, hp, hf, hm, hs => by
+    simp only [mentionsStat, Bool.or_eq_false_iff, beq_eq_false_iff_ne] at hm
+    simp only [selfDeclAtStat, Bool.or_eq_false_iff] at hs
+    subst hp
+    have hfS : EnvFresh new (selfEnv colon (s.pos + 4 * k) env) := hf.selfEnv colon _ (by
+      cases colon <;> simp_all)
+    have hb := alphaBlock_ok body (bindNames (selfEnv colon (s.pos + 4 * k) env) (s.pos + 6 + 4 * k) ps)
+      (((s.skip 1).use env obj).skip (2 * k + 2 + ps.length)) (s.pos + 2 * (4 + 2 * k + ps.length)) (by simp; omega)
+      (EnvFresh.bindNames ps _ _ hfS hm.1.1.2) hm.2 hs.2
+    simp only [alphaStat, refStat, alphaBinders_length, use_ren hf hm.1.1.1, selfEnv_ren d new colon _ env hs.1, ← bind_ren]
+    exact ⟨by rw [hb.1], by first | trivial | rfl, by first | trivial | rfl, hf⟩
 theorem alphaBlock_ok : ∀ (b : List Stat) (env : Env) (s : RefSt) (pos : Nat), pos = s.pos → EnvFresh new env →
-    mentionsBlock new b = false →
+    mentionsBlock new b = false → selfDeclAtBlock d pos b = false →
     (refBlock (renEnv d new env) s (alphaBlock d new env pos b).1).1 = (refBlock env s b).1 ∧
     (refBlock (renEnv d new env) s (alphaBlock d new env pos b).1).2 = renEnv d new (refBlock env s b).2 ∧
     (alphaBlock d new env pos b).2 = (refBlock env s b).2 ∧ EnvFresh new (refBlock env s b).2
-  | [], env, s, pos, hp, hf, hm => by
+  | [], env, s, pos, hp, hf, hm, hs => by
     simp only [alphaBlock, refBlock]
     exact ⟨by first | trivial | rfl, by first | trivial | rfl, by first | trivial | rfl, hf⟩
-  | st :: rest, env, s, pos, hp, hf, hm => by
+  | st :: rest, env, s, pos, hp, hf, hm, hs => by
     simp only [mentionsBlock, Bool.or_eq_false_iff] at hm
-    obtain ⟨a1, a2, a3, a4⟩ := alphaStat_ok st env s pos hp hf hm.1
+    simp only [selfDeclAtBlock, Bool.or_eq_false_iff] at hs
+    obtain ⟨a1, a2, a3, a4⟩ := alphaStat_ok st env s pos hp hf hm.1 hs.1
     simp only [alphaBlock, refBlock, a1, a2, a3]
-    exact alphaBlock_ok rest _ _ _ (by rw [sizeStat_pos, hp]) a4 hm.2
+    exact alphaBlock_ok rest _ _ _ (by rw [sizeStat_pos, hp]) a4 hm.2 hs.2
 end
 
 end Alpha
